@@ -5,10 +5,14 @@ CONSTANTS
   SVals <- SV
   Elems <- EL
   MaxLen = 2
-  MaxOps = 3
+  MaxOps = 2
   MaxSaves = 2
   MaxEvents = 1
-  Dev <- DLost
+  Dev <- NoDev
   Pairs2 = FALSE
-  NoDef <- NoDef0
-INVARIANT BarePending
+  NoDef <- NoDefL1
+INVARIANT TypeOK
+INVARIANT PendingExact
+INVARIANT AfterAck
+INVARIANT ViewIsTor
+INVARIANT Tracked
